@@ -865,8 +865,9 @@ func (s *scanner) ReadStreamData(dict Dict) (stm *Stream, err error) {
 		if err != nil {
 			return nil, err
 		}
-		l = eolPos - start
-		l, err = trimTrailingEOL(origReader, start, l)
+		// eolPos is the single EOL byte in front of "endstream"; the bytes
+		// before it are data, except for the CR of a CR LF end-of-line marker
+		l, err = trimTrailingEOL(origReader, start, eolPos-start)
 		if err != nil {
 			return nil, err
 		}
@@ -888,35 +889,23 @@ func (s *scanner) ReadStreamData(dict Dict) (stm *Stream, err error) {
 	}, nil
 }
 
-// trimTrailingEOL returns length with any single trailing \n, \r, or
-// \r\n removed.  The bytes before "endstream" are an EOL per spec
-// (PDF 7.3.8.2) and must not be considered part of the stream
-// content.
+// trimTrailingEOL completes the end-of-line marker in front of "endstream"
+// (PDF 7.3.8.2).  The byte at start+length is the \n or \r that directly
+// precedes the keyword; length is the number of bytes before it.  Exactly
+// one end-of-line marker is removed: when the byte is the \n of a \r\n
+// pair, the \r belongs to the marker and is not stream content.  Anything
+// before that is data, also when it ends in \n or \r itself: the
+// end-of-line in front of "endstream" is written in addition to the data.
 func trimTrailingEOL(r io.ReaderAt, start, length int64) (int64, error) {
 	if length <= 0 {
 		return length, nil
 	}
 	var probe [2]byte
-	readAt := start + length - int64(len(probe))
-	readLen := len(probe)
-	if readAt < start {
-		readAt = start
-		readLen = int(length)
-	}
-	n, err := r.ReadAt(probe[:readLen], readAt)
+	n, err := r.ReadAt(probe[:], start+length-1)
 	if err != nil && err != io.EOF {
 		return 0, err
 	}
-	if n == 0 {
-		return length, nil
-	}
-	switch probe[n-1] {
-	case '\n':
-		length--
-		if n >= 2 && probe[n-2] == '\r' {
-			length--
-		}
-	case '\r':
+	if n == 2 && probe[0] == '\r' && probe[1] == '\n' {
 		length--
 	}
 	return length, nil
